@@ -13,12 +13,24 @@ Definition valid_offsets (f l : Z) : Prop := 0 <= f /\ f <= l /\ l < ZM63.
 Definition seek_whence (whence : Z) : Z := Z.ldiff whence SeekDontCheck.
 Definition seek_dont (whence : Z) : bool := Z.testbit whence 30.
 
+(* the connection's current position as Conn.Offset reports it — (0, SeekStart) for a
+   fresh connection, (0, SeekEnd), or an absolute offset — on a log holding [f, l] *)
+Definition current_position (cur f l : Z) : Z :=
+  let (o, w) := conn_offset cur in
+  if w =? SeekStart then f + o else if w =? SeekEnd then l - o else o.
+
 (* the arithmetic of the property, in unbounded integers *)
 Definition seek_target (cur off w f l : Z) : Z :=
   if w =? SeekStart then f + off
   else if w =? SeekEnd then l - off
-  else if w =? SeekCurrent then cur + off
+  else if w =? SeekCurrent then current_position cur f l + off
   else off.
+
+(* SeekDontCheck is honoured for SeekAbsolute, and for SeekCurrent unless the current
+   offset is a FirstOffset / LastOffset placeholder that only the broker can resolve *)
+Definition seek_unchecked (whence cur : Z) : bool :=
+  seek_dont whence &&
+  ((seek_whence whence =? SeekAbsolute) || ((seek_whence whence =? SeekCurrent) && negb (is_sentinel cur))).
 
 Definition mk_seek (r : seek_result) (o : Z) (n : N) : seek_out :=
   {| so_res := r; so_offset := o; so_requests := n |}.
@@ -133,7 +145,7 @@ Definition rp_part (v6 : bool) (bs : list md_broker) (tname : str) (p : md_part)
      pt_replicas := map (conn_broker bs) (mp_replicas p);
      pt_isr := map (conn_broker bs) (mp_isr p);
      pt_offline := if v6 then map (conn_broker bs) (mp_offline p) else [];
-     pt_error := 0 |}.
+     pt_error := mp_error p |}.
 
 (* ---- Client.ListOffsets: what is reported for one (topic, partition) ---- *)
 (* the entries of the merged protocol answer that concern key k, in order *)
